@@ -43,7 +43,9 @@ RULE = ('interp (check): d in 1..3, axis lengths 1..6, uniform / non-uniform dya
         'signature styles (positional, lambda, **kwargs, default argument, dual-use, in-place-only, objects with '
         '__call__, point-by-point via vectorize) x 7 entry points (space.element with kwargs, point_collocation on '
         'sparse mesh / dense mesh / point array, out-of-place and into garbage-prefilled out arrays) x return kind '
-        '(scalar, broadcastable, full). Interpolators are also called on dense mesh grids. Non-trivial = values not all equal; '
+        '(scalar, broadcastable, full). Interpolators are also called on dense mesh grids. precision (scheck): '
+        'float32 / complex64 / float16 spaces with grid points not representable in that dtype, step callables with '
+        'thresholds at / next to a grid coordinate and its rounding. Non-trivial = values not all equal; '
         'distinct by the full input tuple.')
 ASSUMPTIONS = [
     'exact arithmetic: coordinates/values are small integers or dyadic rationals so float operations are exact '
@@ -1063,6 +1065,91 @@ def _style_snippet(desc):
               'observed = got\nok = got.shape == space.shape and bool(np.all(got == expected))\n' % desc['scalar_expr'])
 
 
+# ---- low-precision spaces: the callable must see the float64 grid points, the cast happens AFTER evaluation
+LOWP = ['float32', 'float32', 'complex64', 'float16']
+
+
+def make_lowp_space(rng, d, dtype):
+    """A float32 / complex64 / float16 space whose grid points are NOT representable in the space's dtype."""
+    import odl
+    shape = [rng.choice([3, 5, 6, 7][:4 if d == 1 else 2]) if rng.random() < 0.8 else rng.randint(1, 4) for _ in range(d)]
+    if rng.random() < 0.6:
+        lo = [rng.choice([0.0, 0.1, -0.3, 1.0]) for _ in range(d)]
+        hi = [l + rng.choice([1.0, 0.7, 2.0]) for l in lo]
+        sp = odl.uniform_discr(lo, hi, shape, dtype=dtype)
+        src = 'space = odl.uniform_discr(%r, %r, %r, dtype=%r)\n' % (lo, hi, shape, dtype)
+    else:
+        cvs = []
+        for n in shape:
+            c = [rng.choice([0.1, 0.3, -0.7, 1.1])]
+            for _ in range(n - 1):
+                c.append(c[-1] + rng.choice([0.1, 0.3, 0.7, 1.3]))
+            cvs.append(c)
+        part = odl.nonuniform_partition(*cvs)
+        sp = odl.DiscretizedSpace(part, odl.tensor_space(part.shape, dtype=dtype))
+        src = ('part = odl.nonuniform_partition(*%r)\nspace = odl.DiscretizedSpace(part, '
+               'odl.tensor_space(part.shape, dtype=%r))\n' % (cvs, dtype))
+    return sp, src
+
+
+def gen_sensitive_ex(rng, sp, depth):
+    """Step functions whose thresholds sit AT a grid coordinate, at its rounding to the space's real dtype, or
+    strictly between the two: exact small-integer values, but different ones if the callable were evaluated at
+    the rounded coordinates."""
+    rdt = np.dtype(sp.dtype).char.lower() if np.dtype(sp.dtype).kind == 'c' else np.dtype(sp.dtype).char
+    rdt = {'f': 'float32', 'e': 'float16', 'd': 'float64'}.get(rdt, 'float32')
+    k = rng.randrange(sp.ndim)
+    c = sp.grid.coord_vectors[k]
+    p = float(c[rng.randrange(len(c))])
+    pr = float(np.array(p).astype(rdt))
+    t = rng.choice([p, pr, (p + pr) / 2, float(np.nextafter(p, np.inf)), float(np.nextafter(p, -np.inf))])
+    a, b = Ex('const', float(rng.randint(-4, 4))), Ex('const', float(rng.randint(-4, 4)))
+    if depth > 0:
+        a = gen_sensitive_ex(rng, sp, depth - 1) if rng.random() < 0.5 else a
+        b = gen_sensitive_ex(rng, sp, depth - 1) if rng.random() < 0.5 else b
+    return Ex('step', k, t, a, b)
+
+
+def precision_cases(rng, tier):
+    cs = C.CaseSet('precision', ['C15.Syntax', 'C15.Model', 'C15.Call', 'C15.Corr'], 'scheck', 'scase')
+    n_cases = 120 if tier == 'quick' else 700
+    flavours = ['vec', 'vectorize', 'inplace', 'dual', 'vectorize_otypes']
+    modes = ['element', 'element', 'mesh-out', 'array', 'array-out', 'points', 'element-F']
+    for it in range(n_cases):
+        d = rng.choice([1, 1, 2, 3])
+        dtype = LOWP[it % len(LOWP)]
+        cplx = dtype == 'complex64'
+        sp, spsrc = make_lowp_space(rng, d, dtype)
+        ex_re = gen_sensitive_ex(rng, sp, rng.choice([0, 1, 2]))
+        ex_im = gen_sensitive_ex(rng, sp, rng.choice([0, 1])) if cplx else Ex('const', 0.0)
+        flavour = flavours[it % len(flavours)]
+        mode = modes[(it // len(flavours)) % len(modes)]
+        src = make_callable_src(flavour, ex_re, ex_im, cplx, d)
+        if flavour == 'vectorize_otypes':
+            src = src.replace("otypes=['complex128']", "otypes=['complex64']").replace("otypes=['float64']", "otypes=[%r]" % dtype)
+        out_layout = rng.choice(LAYOUTS) if mode.endswith('-out') else 'C'
+        env = {}
+        err = None
+        with warnings.catch_warnings():
+            warnings.simplefilter('ignore')
+            try:
+                exec(src, env)
+                arr = sample(sp, env['f'], mode, out_layout)
+            except Exception as e:
+                arr, err = np.zeros(0, dtype=dtype), '%s: %s' % (type(e).__name__, str(e)[:200])
+        arr, err2 = _finite_or_empty(arr)
+        flat = np.asarray(arr).ravel()
+        cvs = [c.tolist() for c in sp.grid.coord_vectors]
+        term = ('{| s_cvs := %s; s_re := %s; s_im := %s; s_cplx := %s; s_out_re := %s; s_out_im := %s |}'
+                % (C.qss(cvs), ex_re.coq(), ex_im.coq(), C.b(cplx), C.qs([float(v) for v in flat.real.tolist()]),
+                   C.qs([float(v) for v in flat.imag.tolist()]) if cplx else '[]'))
+        desc = {'family': 'sampling', 'flavour': flavour, 'mode': mode, 'out_layout': out_layout, 'dtype': dtype,
+                'space': spsrc, 'callable': src, 'shape': list(sp.shape), 'error': err or err2, 'd': d, 'precision': True,
+                'scalar_expr': ex_re.src(False, 'p') + ((' + 1j * (%s)' % ex_im.src(False, 'p')) if cplx else '')}
+        cs.add(term, desc, ('precision', flavour, mode, dtype, spsrc, src) if len(set(flat.tolist())) > 1 else None)
+    return cs
+
+
 def shape_cases(rng, tier):
     """Calling conventions by SHAPE: every factory called with np.zeros(shape) (all points at the first node)
     on a d-dimensional grid -> result shape, scalar, or ValueError.  Exhaustive over small shapes."""
@@ -1095,7 +1182,8 @@ def shape_cases(rng, tier):
 
 def correspondence(rng, tier):
     return ([interp_cases(rng, tier), sampling_cases(rng, tier), tensor_sampling_cases(rng, tier),
-             history_cases(rng, tier), shape_cases(rng, tier), style_cases(rng, tier)] + resample_cases(rng, tier))
+             history_cases(rng, tier), shape_cases(rng, tier), style_cases(rng, tier), precision_cases(rng, tier)]
+            + resample_cases(rng, tier))
 
 
 # ------------------------------------------------------------------- probes
@@ -1498,6 +1586,47 @@ def probes(rng, tier):
             'expected = np.array([g(p, 2.0) for p in space.points()]).reshape(space.shape)\n'
             'ok = bool(np.all(observed == expected))\n')
     _probe(out, 'sampling-functools-partial-typeerror', 'space.element(functools.partial(g, c=2.0)) samples the callable', snip)
+
+    # ---- 6g. low-precision spaces: the callable is evaluated at the float64 grid points, the cast to the
+    #          space's dtype happens afterwards (oracle: f(float64 points).astype(dtype), exact equality)
+    bodies = [('identity', 'x[0]'), ('last-coordinate', 'x[-1] + 0 * x[0]'), ('hf-mod', '(1e5 * x[0]) % 1'),
+              ('hf-sin', 'np.sin(1e5 * x[0])'), ('equals-node', 'np.where(x[0] == P, 1.0, 0.0) + 0 * x[-1]'),
+              ('below-node', 'np.where(x[0] < P, 1.0, 0.0)'), ('sum', 'sum(x)')]
+    for it in range(len(bodies) * 2 * reps):
+        name, body = bodies[it % len(bodies)]
+        dtype = LOWP[(it // len(bodies) + it) % len(LOWP)]
+        d = rng.choice([1, 2, 3])
+        sp, spsrc = make_lowp_space(rng, d, dtype)
+        mode = rng.choice(['element', 'element', 'mesh', 'mesh-out', 'dense', 'points', 'points-out'])
+        pnode = float(sp.grid.coord_vectors[0][rng.randrange(sp.shape[0])])
+        snip = ('import numpy as np, odl, warnings\nwarnings.simplefilter("ignore")\n' + STYLE_SRC + spsrc +
+                'P = %r\nseen = []\n'
+                'def f(x):\n'
+                '    seen.append(str(np.asarray(x[0]).dtype))      # the coordinates must arrive in double precision\n'
+                '    return %s\n'
+                'got = sample_style(space, f, %r, {}, "C")\n'
+                'pts = space.points()\n'
+                'expected = np.broadcast_to((lambda x: %s)(list(pts.T)), (len(pts),)).reshape(space.shape).astype(space.dtype)\n'
+                'observed = (got.tolist(), sorted(set(seen)))\n'
+                'ok = got.dtype == space.dtype and bool(np.all(got == expected)) and set(seen) == {"float64"}\n'
+                % (pnode, body, mode, body))
+        _probe(out, 'precision-%s-%s' % (name, dtype),
+               '%s on a %s space (%d-d, via %s): values are f at the float64 grid points cast afterwards, and the callable '
+               'sees float64 coordinates' % (name, dtype, d, mode), snip)
+    # the decorator path (point by point) and the coordinates themselves handed back
+    for dtype in ('float32', 'complex64', 'float16'):
+        snip = ('import numpy as np, odl, warnings\nwarnings.simplefilter("ignore")\n'
+                'space = odl.uniform_discr([0.0, 0.1], [1.0, 0.8], (3, 7), dtype=%r)\nseen = []\n'
+                '@odl.util.vectorize\ndef f(x):\n    seen.append(str(np.asarray(x).dtype)); return float((1e5 * x[0]) %% 1 + x[1])\n'
+                'got = space.element(f).asarray()\n'
+                'expected = np.array([(1e5 * p[0]) %% 1 + p[1] for p in space.points()]).reshape(space.shape).astype(space.dtype)\n'
+                'back = [space.element(lambda x, k=k: x[k] + 0 * x[0] + 0 * x[1]).asarray() for k in range(2)]\n'
+                'mesh_ok = all(bool(np.all(b == np.broadcast_to(m, space.shape).astype(space.dtype)))\n'
+                '              for b, m in zip(back, space.meshgrid))\n'
+                'observed = (got.tolist(), sorted(set(seen)))\n'
+                'ok = bool(np.all(got == expected)) and set(seen) == {"float64"} and mesh_ok\n' % dtype)
+        _probe(out, 'precision-vectorize-%s' % dtype,
+               'vectorize-wrapped high-frequency callable and the coordinate arrays handed back on a %s space' % dtype, snip)
 
     # ---- 7. vector-valued callables through sampling_function (shaped out_dtype)
     for form, body in (('tuple-mixed', '(x[0] + 0.0 * x[1], 2.0, x[0] * x[1])'),
